@@ -349,7 +349,7 @@ def judge(c, o, prof):
 
     if o == [-1]:
         return '%s: the encoder panicked' % prof
-    enc, buf, decoded, leftover = o
+    enc, buf, decoded, leftover, fix = o
     if enc == -2:
         if buf:
             return '%s: encode_to returned an error after writing %d bytes' % (prof, len(buf))
@@ -372,6 +372,8 @@ def judge(c, o, prof):
         bad = [d for d in decoded if d[0] < 0]
         return '%s: the peer codec did not accept the frames (%s, %d of %d frames decoded, %d bytes left)' % (
             prof, 'error %s' % bad[0] if bad else 'no error', len([d for d in decoded if d[0] >= 0]), len(frames), leftover)
+    if 0 in fix:
+        return '%s: decode(encode(y)) differs from y for the value y decoded from frame %d' % (prof, fix.index(0))
     if t == 'ka':
         return None if decoded == [[6]] else '%s: KEEPALIVE decoded as %s' % (prof, decoded)
     if t == 'refresh':
